@@ -958,7 +958,10 @@ impl World {
 		}
 		if let Some(d) = deadline {
 			let h = self.nodes[n].synced_height;
-			if d <= h {
+			// an event re-delivered after a restart describes the past: it is judged only the first
+			// time it is shown, by a node that has been up since the HTLC arrived
+			let redelivered = self.nodes[n].incarnation > 0;
+			if d <= h && !redelivered {
 				let msg = format!("node {} pay {}: claim_deadline {} not above current height {}", n, pay, d, h);
 				self.violate("C04", "C04-1 PaymentClaimable without a claim window", msg);
 			}
@@ -1262,6 +1265,26 @@ impl World {
 		}
 	}
 
+	/// Is an HTLC of this payment still an unspent output of a confirmed commitment transaction
+	/// of its first-hop channel?
+	fn htlc_output_unresolved(&self, p: &Pay) -> bool {
+		for path in p.paths.iter() {
+			let funding = self.chans[path.chans[0]].funding;
+			if let Some((_, commitment)) = self.chain.confirmed_spender(&funding) {
+				let txid = commitment.compute_txid();
+				let sat = path.hop_amts[0] / 1000;
+				for (i, o) in commitment.output.iter().enumerate() {
+					if o.value.to_sat() == sat
+						&& self.chain.utxos.contains_key(&bitcoin::OutPoint { txid, vout: i as u32 })
+					{
+						return true;
+					}
+				}
+			}
+		}
+		false
+	}
+
 	// -----------------------------------------------------------------------------------------
 	// end of run (after settle)
 
@@ -1308,6 +1331,12 @@ impl World {
 				&& p.paths.iter().any(|x| {
 					x.chans.iter().any(|c| self.chans[*c].tainted || self.chans[*c].force_closed_by.is_some())
 				}) {
+				continue;
+			}
+			if !terminal && !pending_htlc && self.htlc_output_unresolved(p) {
+				// the HTLC still sits in an unspent output of a confirmed commitment transaction
+				// (too small for its claim to meet the relay fee): it is still pending, on chain
+				self.out.bump("probe:payment_pending_in_unclaimable_small_htlc_output");
 				continue;
 			}
 			if !terminal && !pending_htlc {
